@@ -3,6 +3,7 @@ from ..gen import cells as G
 from ..gen import maps as M
 from ..translate import labelfns as tr
 from ..translate import hashmapsrc as hmsrc
+from ..translate import hashmapglue as hmglue
 from . import C09
 
 SPEC = dict(
@@ -24,17 +25,20 @@ SPEC = dict(
              'against the running library; Lean proves FOR ALL INPUTS (every slice, int key length, dict, prefix, decoder pair; every recursion fuel >= 2*key_length+2) that the regenerated '
              'deserialize_unary / deserialize_hml / parse / deserialize_hashmap_node / parse_aug / deserialize_hashmap_aug_node / parse_hashmap equal the hand model '
              '(c10_src_label_reader, c10_src_parse, c10_src_parse_hashmap, c10_src_parse_aug), so c10_parse_any*, c10_label_accepted_iff and the over-long-label refusal hold of the code as '
-             'written (c10_src_parse_any, c10_src_parse_any_aug, c10_src_label_accepted_iff, c10_src_label_too_long_rejected). The serialiser (build_tree .. serialize_dict) is regenerated and validated, '
-             'and compared with the model by Lean evaluation on samples, but its equality with the model is NOT proved: c10_canonical rests on the hand model + correspondence.',
+             'written (c10_src_parse_any, c10_src_parse_any_aug, c10_src_label_accepted_iff, c10_src_label_too_long_rejected). The SERIALISER is tied the same way (Proofs/SrcHashmapSer.lean): the regenerated pad / find_common_prefix (every list of strings) / remove_prefix_map / fork_map / build_node / build_edge / build_tree '
+             '(every map of pairwise different keys < 2^n, i.e. every map set_int_key can build) / write_label_short / long / same / write_label (every label, int key size and builder) / write_node / write_edge / serialize_dict '
+             '(every value serialiser that appends bits and references; every fuel >= 2n+2) equal the hand model (c10_src_common_prefix, c10_src_build_tree, c10_src_label_writer, c10_src_serializer), so the label written is the reference constructor '
+             'and minimal (c10_src_label_kind, c10_src_label_minimal) and whatever serialize_dict returns is THE canonical cell of the map (c10_src_canonical). Outside that domain (keys wider than the dict injected through HashMap(map_=..)) the Python dict re-keying may merge keys; not covered.',
         level_note='Trusted: Lean kernel (propext, Classical.choice, Quot.sound); Spec/Hashmap.lean as the transcription of hashmap.tlb and of '
                    'append_dict_label; Model/Hashmap.lean as a hand transcription of utils.py/parse.py (tied by sampled differential correspondence: '
-                   'for the serialiser and the HashMap/Slice glue; parser side: regenerated from parse.py and proved equal, trusting pyrec.py, the declared interface in hashmapsrc.py and PyHm.lean as the reading of Slice/Builder/dict, validated against the library on 2.4k inputs per change; every (len,max,same) with max<=40 (<=64 thorough), tie-break boundaries for max up to 1023, random valid non-canonical trees '
+                   'for non-default deserialisers and the Builder / Slice primitives only; HashMap.set / serialize / parse / from_cell, Slice.load_dict / preload_dict / load_hashmap / load_hashmap_aug / load_hashmap_aug_e (ordinary slice) and the int-key conversion of parse_hashmap_aug are regenerated (hashmapglue.py) and proved equal to the model (c10_src_parse_hashmap_aug, c10_src_load_hashmap_aug_e, c09_src_*); parser AND serialiser side: regenerated from parse.py / utils.py and proved equal, a value serialiser being read as a callback that appends bits and references (serCb), trusting pyrec.py, the declared interface in hashmapsrc.py and PyHm.lean as the reading of Slice/Builder/dict, validated against the library on 2.4k inputs per change; every (len,max,same) with max<=40 (<=64 thorough), tie-break boundaries for max up to 1023, random valid non-canonical trees '
                    'with Merkle prunings through 8 parser entry points; over-long labels of every constructor at depth 0-4 must raise); the 200-line Python->Lean translator for the label functions; '
                    'that the hash equals the on-chain one rests on c10_canonical + c10_unique + Spec/Hashmap.lean being the reference format, on C01 (cell hash), and is cross-checked on samples against an independent Python transcription of dict.cpp.',
-        technique='Lean 4 proof (label functions, label reader and parse recursion regenerated from source and proved equal to the model; hand model for tree building / writing) + differential correspondence + independent reference serialiser',
+        technique='Lean 4 proof (label functions, label reader, parse recursion, tree building and label/edge writer and the HashMap / Slice entry points regenerated from source and proved equal to the model) + differential correspondence + independent reference serialiser',
     ),
     translators=[('hashmap/utils.py->Generated/LabelFns.lean', tr.regenerate),
-                 ('hashmap/parse.py+utils.py->Generated/HashmapSrc.lean', hmsrc.regenerate)],
+                 ('hashmap/parse.py+utils.py->Generated/HashmapSrc.lean', hmsrc.regenerate),
+                 ('hashmap.py+slice.py dict methods->Generated/HashmapGlue.lean', hmglue.regenerate)],
     design_ref='DESIGN.md §6 C10',
     rule='(a) maps whose root label realises a given (len, max, constant?, bit): hash of HashMap.serialize() vs an independent transcription of the '
          'reference serialiser, all triples with max<=40/64 and boundary lens for every max<=1023 (sampled in quick); (b) spec-valid trees built by an '
@@ -459,6 +463,38 @@ def overlong_cases(ctx):
                         overlong_case(ctx, n, kind, length, path, ybits, rng.getrandbits(32), f'overlong{t}')
 
 
+def auge_case(ctx, bits, refs, n, tag):
+    """hashmap.tlb `ahme_empty$0 extra:Y` / `ahme_root$1 root:^(HashmapAug n X Y) extra:Y`: the top-level extra is a mandatory field, so
+    `Slice.load_hashmap_aug_e` (y_deserializer = load_bit) on an ordinary slice that has NO bit left behind the presence bit must raise
+    (c10_aug_e_extra_required), and where the extra is present it must be consumed."""
+    inp = {'kind': 'auge', 'bits': bits, 'refs': [hmsrc._show_cell(r) for r in refs], 'cells': [_jsonable(r) for r in refs], 'n': n, 'tag': tag}
+
+    def f():
+        sl = hmsrc._py_slice((-1, bits, ()))
+        cs = []
+        for r in refs:
+            c = hmsrc._py_cell(r)
+            c.type_ = r[0]
+            cs.append(c)
+        sl.refs = cs
+        r = sl.load_hashmap_aug_e(n, lambda cs_: cs_.load_bits(2).to01(), lambda cs_: cs_.load_bit())
+        return r, len(sl.bits)
+    got = call(f)
+    ctx.case(('auge', bits, tuple(inp['refs']), n), sample=inp)
+    if len(bits) == 1 and not is_err(got):
+        ctx.fail('aug-e:extra-not-required', 'load_hashmap_aug_e returned although the mandatory top-level extra is missing', inp, 'returned', 'raises')
+    elif len(bits) >= 2 and not is_err(got) and got[1] != len(bits) - 2:
+        ctx.fail('aug-e:extra-not-consumed', 'load_hashmap_aug_e left the top-level extra in the slice', inp, f'{got[1]} bits left', f'{len(bits) - 2} bits left')
+
+
+def _jsonable(t):
+    return [t[0], t[1], [_jsonable(r) for r in t[2]]]
+
+
+def _tupled(t):
+    return (t[0], t[1], tuple(_tupled(r) for r in t[2]))
+
+
 def src_search(ctx):
     """Search mode only (a `c10_src_*` obligation or the tie broke): Lean evaluates the regenerated parser / serialiser
     (Generated/HashmapSrc.lean) against the hand model on the translator's validation inputs; the differing points are judged by
@@ -489,6 +525,11 @@ def src_search(ctx):
             for k, v in items:
                 canon_case(ctx, n, [k2 for k2, _ in items], v, 'src-ser')
                 break
+    try:
+        for i, (bits, refs, n) in enumerate(hmglue.validation_inputs()['auge']):
+            auge_case(ctx, bits, refs, n, f'src-auge{i}')
+    except Exception as e:
+        ctx.notes.append(f'load_hashmap_aug_e search failed: {type(e).__name__}: {e}')
     return len(ctx.failures) > n0
 
 
@@ -521,6 +562,8 @@ def replay(ctx, payload):
             ctx.fail('label-reader:accepted', 'deserialize_hml returned on bits that are no HmLabel under this bound (hashmap.tlb)', inp, got, 'raises')
         elif want is not None and (is_err(got) or tuple(got) != tuple(want)):
             ctx.fail('label-reader:wrong', 'deserialize_hml does not return the label hashmap.tlb denotes', inp, got, want)
+    elif inp.get('kind') == 'auge':
+        auge_case(ctx, inp['bits'], [_tupled(c) for c in inp['cells']], inp['n'], inp.get('tag', 'replay'))
     elif inp.get('kind') == 'overlong':
         overlong_case(ctx, inp['n'], inp['ctor'], inp['length'], [tuple(p) for p in inp['path']], inp['ybits'], inp['seed_bits'], inp.get('tag', 'replay'))
 
